@@ -332,6 +332,11 @@ def check(tier):
         [{"k": "AddStructure", "name": NEW_S}, {"k": "AddMixin", "target": NEW_S, "parent": "HoverOptions"}],
         [{"k": "AddStructure", "name": NEW_S}, {"k": "AddExtends", "target": NEW_S, "parent": "HoverParams"}],
         [{"k": "AddEnum", "name": NEW_E, "base": "string"}, {"k": "AddEnumValue", "target": NEW_E}],
+        # several anonymous literal types in one structure (the generators must name them apart)
+        [{"k": "AddProperty", "target": "Color", "name": "verifProp", "ty": "literal", "optional": True},
+         {"k": "AddProperty", "target": "Color", "name": "global", "ty": "arrayLiteral", "optional": False}],
+        [{"k": "AddStructure", "name": NEW_S}, {"k": "AddProperty", "target": NEW_S, "name": "verifProp", "ty": "literal", "optional": False},
+         {"k": "AddProperty", "target": NEW_S, "name": "class", "ty": "orLiteralNull", "optional": True}],
     ]
     seen, uniq = set(), []
     for s in scripts + extra:
